@@ -494,8 +494,13 @@ def run_check(check, tier, base_seed, jobs, runs=None, budget=None, ignore_known
         "wall_s": round(wall, 2),
         "violations": len(reported),
     }
-    os.makedirs(os.path.join(VERIF, "evidence"), exist_ok=True)
-    with open(os.path.join(VERIF, "evidence", "%s.json" % prop), "w") as f:
+    # evidence is only ever written for runs against /repo itself; runs against a scratch worktree
+    # (VERIF_REPO=..., used for seeded changes and proposed fixes) go to a scratch directory
+    ev_dir = os.path.join(VERIF, "evidence") if os.path.realpath(REPO) == "/repo" else \
+        os.path.join(os.environ.get("VERIF_SCRATCH_EVIDENCE", "/tmp/verif-scratch-evidence"))
+    os.makedirs(ev_dir, exist_ok=True)
+    ev["coverage"]["repo_path"] = os.path.realpath(REPO)
+    with open(os.path.join(ev_dir, "%s.json" % prop), "w") as f:
         json.dump(ev, f, indent=1, default=str)
 
     out = sys.stdout
